@@ -358,6 +358,8 @@ def r3_path_param(c, facts):
 
 
 def run(c, facts):
+    import c04
+    c.run(lambda c: c04.r5_status_conv(c, facts, rule='C03.R4'))
     c.run(r1_ref_close, facts)
     c.run(r2_status_dom, facts)
     c.run(r3_path_param, facts)
